@@ -49,7 +49,15 @@ if confirmed:
     rc, out = sh(["git", "-C", "/repo", "status", "--porcelain"])
     assert out.strip() == "", "repo not clean: " + out
     rc, out = sh(["git", "-C", "/repo", "apply", diff])
-    assert rc == 0, out
+    if rc != 0:
+        # the hooks moved the context: apply with fuzz and store the diff against the current HEAD
+        rc, out = sh(["patch", "-p1", "-F3", "-i", diff], cwd="/repo")
+        assert rc == 0, out
+        sh(["find", "/repo/src", "-name", "*.orig", "-delete"])
+        rc2, newdiff = sh(["git", "-C", "/repo", "diff"])
+        rebased = os.path.join(OUT, "mut%s.rebased.diff" % k)
+        open(rebased, "w").write(newdiff)
+        res["rebased"] = True
     try:
         for c in [pid] + extra:
             t0 = time.time()
@@ -66,7 +74,7 @@ if confirmed:
 # C. store
 d = "/verif/seeded/%s-%s" % (pid, k)
 os.makedirs(d, exist_ok=True)
-shutil.copy(diff, os.path.join(d, "patch.diff"))
+shutil.copy(os.path.join(OUT, "mut%s.rebased.diff" % k) if res.get("rebased") else diff, os.path.join(d, "patch.diff"))
 shutil.copy(demo, os.path.join(d, "demo.rs"))
 meta.update({"confirmation": res, "ran": "tools/seed.py %s %s %s" % (pid, k, " ".join(extra))})
 json.dump(meta, open(os.path.join(d, "meta.json"), "w"), indent=1)
